@@ -11,7 +11,11 @@ import (
 	"bytes"
 	"encoding/binary"
 	"fmt"
+	"github.com/google/gce-tcb-verifier/extract"
+	"os"
+	"path/filepath"
 	"strings"
+	"verifharness/kmfx"
 
 	"github.com/google/gce-tcb-verifier/eventlog"
 	"github.com/google/gce-tcb-verifier/ovmf/abi"
@@ -562,6 +566,53 @@ func eventCodecs(r *mc.Run) {
 					}
 				}
 				return fmt.Sprint(len(enc))
+			})
+		}
+	}
+	// The tools read TCG logs from a file: what the encoder produced must decode through that path
+	// too, also when the log spans several 4 KiB blocks and a field falls across a block boundary.
+	// The log ends in a raw-locator event of the tool's own manufacturer; reading it back through
+	// extract.Endorsement is the decode (the locator bytes come back only if the whole log parsed).
+	{
+		dir := filepath.Join(kmfx.ScratchRoot(), "c18-logs")
+		os.MkdirAll(dir, 0o755)
+		blob := []byte("the bytes behind the raw locator")
+		ev3 := func(man string, loc []byte) *eventlog.SP800155Event3 {
+			return &eventlog.SP800155Event3{PlatformManufacturerID: 11129, ReferenceManifestGUID: eventlog.EfiGUID{UUID: uuid.MustParse(guids[2])},
+				PlatformManufacturerStr: eventlog.ByteSizedCStr{Data: man}, PlatformModel: eventlog.ByteSizedCStr{Data: "m"}, FirmwareManufacturerStr: eventlog.ByteSizedCStr{Data: man},
+				FirmwareManufacturerID: 11129, FirmwareVersion: eventlog.ByteSizedCStr{Data: "2.7"}, RIMLocatorType: eventlog.RIMLocationRaw, RIMLocator: eventlog.Uint32SizedArray{Data: loc}}
+		}
+		for shift := 0; shift < 64; shift++ {
+			shift := shift
+			check(r, fmt.Sprintf("tcg-log-file blocks=several shift=%d", shift), func() string {
+				l := &eventlog.CryptoAgileLog{Header: eventlog.TCGPCClientPCREvent{EventType: eventlog.EvNoAction, EventData: eventlog.TCGEventData{Event: &eventlog.UnknownEvent{Data: []byte("Spec ID Event03\x00")}}}}
+				add := func(e *eventlog.SP800155Event3) {
+					l.Events = append(l.Events, &eventlog.TCGPCREvent2{EventType: eventlog.EvNoAction,
+						Digests:   eventlog.Uint32SizedArrayT[*eventlog.TaggedDigest]{Array: []*eventlog.TaggedDigest{{AlgID: 4, Digest: bytes.Repeat([]byte{1}, 20)}, {AlgID: 0xb, Digest: bytes.Repeat([]byte{2}, 32)}, {AlgID: 0xc, Digest: bytes.Repeat([]byte{3}, 48)}}},
+						EventData: eventlog.TCGEventData{Event: e}})
+				}
+				add(ev3("Filler Corp", bytes.Repeat([]byte{0xF1}, shift)))
+				for i := 0; i < 50; i++ {
+					add(ev3("Filler Corp", []byte("filler")))
+				}
+				add(ev3(extract.GCEFirmwareManufacturer, blob))
+				var enc bytes.Buffer
+				if err := l.Marshal(&enc); err != nil {
+					r.Violation("tcglog-file/marshal", "tcg log file", err.Error(), nil)
+					return "err"
+				}
+				mem := &eventlog.CryptoAgileLog{}
+				if err := mem.Unmarshal(bytes.NewReader(enc.Bytes())); err != nil || len(mem.Events) != len(l.Events) {
+					r.Violation("tcglog/roundtrip", "tcg log", fmt.Sprintf("a %d-byte log does not decode from memory: %v", enc.Len(), err), nil)
+					return "err"
+				}
+				p := filepath.Join(dir, fmt.Sprintf("log-%d.bin", shift))
+				os.WriteFile(p, enc.Bytes(), 0o644)
+				got, err := extract.Endorsement(&extract.Options{EventLogLocation: p, FirmwareManufacturer: extract.GCEFirmwareManufacturer})
+				if err != nil || !bytes.Equal(got, blob) {
+					r.Violation("tcglog-file/encoded-log-not-decoded-from-file", "tcg log file", fmt.Sprintf("a %d-byte log the encoder produced (it decodes from memory) is not decoded when read from a file: %v", enc.Len(), err), nil)
+				}
+				return fmt.Sprint(enc.Len())
 			})
 		}
 	}
